@@ -23,6 +23,7 @@ import (
 	"strconv"
 	"strings"
 	"sync"
+	"sync/atomic"
 	"time"
 
 	"github.com/canonical/sqlair"
@@ -701,11 +702,14 @@ func printDestPrefix(p string, n int) string {
 	return p
 }
 
+var leaksSeen int64
+
 // releaseCheck: after Get / GetAll returned, every result set the call opened has been closed and no
 // connection of the pool is in use (C13).
 func releaseCheck(sqldb *sql.DB, f *fakeDB) string {
 	inuse := sqldb.Stats().InUse
-	for i := 0; i < 200 && inuse > 0; i++ {
+	// the wait is for a release that is still on its way; once 50 cases have leaked there is nothing to wait for
+	for i := 0; i < 200 && inuse > 0 && atomic.LoadInt64(&leaksSeen) < 50; i++ {
 		time.Sleep(200 * time.Microsecond)
 		inuse = sqldb.Stats().InUse
 	}
@@ -713,6 +717,7 @@ func releaseCheck(sqldb *sql.DB, f *fakeDB) string {
 	opened, closed := f.rowsOpened, f.rowsClosed
 	f.mu.Unlock()
 	if opened != closed || inuse != 0 {
+		atomic.AddInt64(&leaksSeen, 1)
 		return fmt.Sprintf("result sets opened %d, closed %d, connections in use %d", opened, closed, inuse)
 	}
 	return ""
